@@ -38,7 +38,7 @@ CLAIMED = {
              "Hilbert: side length only. lib/cuda: text-level finding only (no CUDA toolchain).",
         note="one open known finding (cuda_device_array copy assignment) is printed as KNOWN-FINDING; Hilbert walk not decided"),
     "C06": dict(
-        level="other", design="5/C06", technique="writer/reader grammar extraction from optimised LLVM IR (opaque stream calls in program order, memory snapshots, read atoms) and pairing; loop summary for the array payload",
+        level="other", design="5/C06", technique="writer/reader grammar extraction from optimised LLVM IR (opaque stream calls in program order, memory snapshots, read atoms) and pairing; array payload: shape-independent abutting-writes rule, then tiling rules for the recognised shapes (per-element loop, bulk write)",
         text="Agreement of the writer's and the reader's item tables for every serialisable layer, the array payload and field::dump/field(istream&): same kinds and byte counts, same constants written and required, every "
              "configuration field written from and reloaded into the same field at the same offset without conversion, delegation in the same place, every written byte defined. Necessary for the round trip and, taken together, close to sufficient; nothing is executed.",
         note="layers over the opaque probe; array<float|double, M<=4>; iostream write/read contract trusted"),
@@ -48,21 +48,21 @@ CLAIMED = {
              "to writer and reader, alters bytes on disk. Interpolators serialise as a bare delegation; the array reader accepts both on-disk widths for either in-memory type with exactly one widening/narrowing conversion.",
         note="format table frozen by tools/freeze_format.py, never regenerated by a check; value rounding when narrowing = IEEE fptrunc"),
     "C08": dict(
-        level="other", design="5/C08", technique="path-condition analysis of reader IR: every istream::read followed by a state test that guards all later events and uses of the bytes read; header/footer/width comparisons with throwing mismatch edges; loop summary for the array payload",
+        level="other", design="5/C08", technique="path-condition analysis of reader IR: every istream::read followed by a state test that guards all later events and uses of the bytes read; header/footer/width comparisons with throwing mismatch edges; no exceptional edge into std::terminate; shape-independent loop read-guard plus loop summary for the array payload",
         text="A structural argument covering every truncation offset and every altered framing word at once, for every layer's reader, the array payload and field(istream&), in NDEBUG and assertion-enabled builds: "
              "no decision, store, allocation or further read happens on bytes whose read was not checked, failure and mismatch edges throw, no assertion is reachable, only read_binary touches the stream.",
         note="relies on istream::read setting failbit on short reads; recovering streams not considered"),
     "C09": dict(
-        level="other", design="5/C09", technique="abstract interpretation of loop-free LLVM IR: polynomial normal form over matrix entries (real ring), exact routing for factories",
+        level="other", design="5/C09", technique="abstract interpretation of loop-free LLVM IR: polynomial normal form over matrix entries (real ring) decided per case of configuration-dependent branches and along every construction route, exact routing for factories",
         text="affine*vector, affine*affine (right factor first), translation/scaling/identity factories and the layer's lookup are compared with the textbook formulas as polynomial identities for N 1..4, float/double. Rounding error not decided.",
         note="real-ring identities; products of >2 transforms by associativity of the verified binary product"),
     "C10": dict(
-        level="proof", design="5/C10", technique="abstract interpretation of loop-free LLVM IR over order types (D-ord) + dependence/routing facts",
+        level="proof", design="5/C10", technique="abstract interpretation of loop-free LLVM IR over order types (D-ord) + dependence/routing facts, for single and multiple query sites, along every construction route",
         text="Per instantiation clamp<probe<S,N>> the select/compare tree feeding the single backend query is evaluated on every weak ordering of (c,lo,hi) with lo<=hi; "
              "values touched only through comparisons have finitely many order types, so the enumeration is complete for all coordinate values of that instantiation.",
         note="N in 1..3 (quick) / 1..4 (thorough), S in {size_t,unsigned,int,float,double}; NaN excluded; second sentence (memory safety over array storage) follows by composition with C01"),
     "C11": dict(
-        level="proof", design="5/C11", technique="abstract interpretation of loop-free LLVM IR over order types (D-ord): gating condition of the backend query and output routing",
+        level="proof", design="5/C11", technique="abstract interpretation of loop-free LLVM IR over order types (D-ord): gating condition of the backend query and output routing, along every construction route",
         text="Per instantiation backup<probe<S,N,T,M>> the path condition of the single backend query and every output component are evaluated on all 13^N products of weak orderings of (c_i,lo_i,hi_i): "
              "queried iff inside the closed box; outputs routed from backend value or default. Complete for all coordinate values since inputs are touched only by comparisons.",
         note="quick: 11 instantiations N<=3; thorough: N,M in 1..4 x 5 coordinate types; NaN excluded"),
@@ -77,24 +77,24 @@ CLAIMED = {
              "and each stated kind constraint has a must-fail witness that has to be rejected by that constraint. Quick: pairwise layer-adjacency cover; thorough: full depth<=3 closure plus seeded depth 4-5 samples.",
         note="oracle for well-kinded = engine/universe.py grammar; g++ 12 decides; clang cross-check not used for verdicts"),
     "C14": dict(
-        level="proof", design="5/C14", technique="abstract interpretation of loop-free LLVM IR: polynomial normal form (row-major), bit provenance (Morton, portable and pdep), dependence fixpoint (Hilbert side length)",
+        level="proof", design="5/C14", technique="abstract interpretation of loop-free LLVM IR: polynomial normal form (row-major), bit provenance (Morton, portable and pdep), dependence fixpoint (Hilbert side length), and an inductive proof of the Hilbert clause in a finite corner domain over the quadrant digits/symmetries read off the loop body, with the level schedule decided in the exponent domain",
         text="Row-major and Morton are decided completely per instantiation: the index expression is canonicalised (mod 2^64 polynomial) resp. traced bit by bit and compared with the published map, "
              "for both Morton implementations, which therefore agree. Hilbert: only that the walk's side length is round_pow2(max extent) and that the position depends on the extents through it alone; "
              "bijectivity/adjacency of the walk are NOT decided (data-dependent loop).",
         note="N in 1..3 (quick) / 1..4 (thorough); coordinate types size_t/int (quick) + unsigned (thorough); x86 pdep semantics as modelled; Hilbert walk correctness not claimed"),
     "C15": dict(
-        level="other", design="5/C15", technique="compiler diagnostics over forced instantiations + undef/poison propagation through optimised LLVM IR + debug/release term equality + token rule for assertions",
+        level="other", design="5/C15", technique="compiler diagnostics over forced instantiations + undef/poison propagation through optimised LLVM IR + debug/release term equality + token rule for assertions + zero-initialised curve buffers + array copy/assign buffer guards",
         text="Decides four static clauses: missing-return/uninitialised diagnostics over the explicitly instantiated stack universe (with and without NDEBUG); no undef/poison (LLVM's residue of provably undefined source paths) "
              "reaching a query, output or guard in any entry harness of the other checks in both builds; reads of queried values in bounds; assertions side-effect free and both builds computing identical queries and outputs. "
              "Heap bounds and overflow for runtime values are NOT decided (they would need execution under a sanitizer).",
         note="clauses on runtime-value UB (signed overflow, fp->int range, heap extents) are outside this technique and stated as not decided"),
     "C16": dict(
-        level="proof", design="5/C16", technique="sound effect analysis of optimised LLVM IR (store destinations via points-to, atomics/volatile, globals, callee whitelist) + token scan for shared-state constructs",
+        level="proof", design="5/C16", technique="sound effect analysis of optimised LLVM IR (store destinations via points-to, atomics/volatile, globals, callee whitelist) for lookups through shared views and for constructing a view from a const field + token scan for shared-state constructs (a hit not attributed to a write is exit 2)",
         text="Schedule-independent: every store a lookup can perform targets lookup-local memory, only constant globals are read, and the only callees are the backend query and pure functions - for every layer "
              "over the opaque probe and for real array-backed stacks, with the view passed by pointer, in NDEBUG and assertion-enabled builds. Readers of memory nobody writes cannot race; a function of (view, coordinate) is deterministic.",
         note="writers to distinct coordinates: disjointness rests on C01/C14 injectivity; C++ memory model; opaque probe stands for any conforming backend"),
     "C17": dict(
-        level="other", design="5/C17", technique="exact value-identity (D-route) reading of loop-free LLVM IR for constructors and accessors; make_parameter_pack_for over stacks with one shared configuration type",
+        level="other", design="5/C17", technique="exact value-identity (D-route) reading of loop-free LLVM IR for constructors and accessors; make_parameter_pack_for over stacks with one shared configuration type; repeated over probes mimicking array-like and extent-configured backends",
         text="Each configuration field read back through get_configuration()/get_backend() must be exactly the scalar it was constructed from, for every configurable layer (both construction routes) and for "
              "make_parameter_pack_for at depth 1..10 where all nine layers share one configuration type so a positional swap cannot be masked by types. Accessor/trait types are compile witnesses in C13.",
         note="array backend's configuration handled with ownership (C12); rebuild-equality follows from lookups being functions of (configuration, storage)"),
